@@ -512,7 +512,28 @@ func ZZ_C01_interference() {
 		`m["z"] = 9`, `m = nil`, `m = {}`, `m[k] = nil`, `m = 1`, `for q in m { delete(m, q) }`,
 	}
 	var src, id string
-	switch f := zz.Choose(7); f {
+	switch f := zz.Choose(9); f {
+	case 7:
+		// the loop variable of a for-in over containers whose elements are nil
+		// pointers / nil containers / nil, used in every way a value can be used
+		conts := []string{"a = make([]*int64, 2)", "a = make(chan *int64, 2); a <- nil; close(a)", "a = [nil, 1]", "a = make([][]int64, 1)",
+			"a = make([]map[string]int64, 1)", "a = {\"k\": nil}", "a = make([]*int64, 1); a = [a[0], a]"}
+		uses := []string{"r += x", "r = [x]", "if x == nil { r = 1 }", "r = \"a\" + x", "r = x + \"a\"", "r = id(x)", "go func(y) { z = [y] }(x)", "r = x.a", "r = x[0]",
+			"r = -x", "r = x ?? 1", "r = {\"k\": x}", "r = {x: 1}", "r = x + 1", "r = [x] + [x]", "r = len(x)", "r = x in [nil]", "switch x { case nil: r = 1 }", "r = *x", "throw x", "r = x ? 1 : 2"}
+		ci, ui := zz.Choose(len(conts)), zz.Choose(len(uses))
+		src = conts[ci] + "; id = func(v) { return v }; r = []; try { for x in a { " + uses[ui] + " } } catch e { r = 0 }; r"
+		id = "for-in-nil-elements/" + conts[ci] + "/" + uses[ui]
+	case 8:
+		// operators and statements applied to nil pointers / nil typed containers / huge counts
+		ops := []string{"a = make([]*int64, 1); \"a\" + a[0]", "a = make([]*int64, 1); a[0] + \"a\"", "a = make([]*int64, 1); a[0] + 1", "a = make([]*int64, 1); -a[0]", "a = make([]*int64, 1); a[0] == a[0]",
+			"a = []int64{1}; a + [nil]", "a = []int64{1}; a += [nil]", "a = []string{\"x\"}; a + [nil]", "a = [][]int64{[1]}; a + [[nil]]", "a = [][]int64{[1]}; a + [nil]", "a = []int64{1}; a + nil", "a = make([]int64, 0); a + [nil, 1]",
+			"\"ab\" * 4611686018427387904", "\"ab\" * 9223372036854775807", "\"\" * 9223372036854775807", "\"a\" * -1",
+			"a = make([]map[string]int64, 1); a[0].k = 1; a", "a = make([]map[string]int64, 1); a[0][\"k\"]", "a = make([][]int64, 1); a[0][0]", "a = make([][]int64, 1); a[0] + 1", "a = make([]*int64, 1); *a[0]", "a = make([]*int64, 1); *a[0] = 1",
+			"a = make([]chan int64, 1); close(a[0])", "a = make([]*int64, 1); a[0].x", "a = make([]*int64, 1); delete(a[0], 1)", "a = make([]*int64, 1); for x in a[0] { }", "a = make([]*int64, 1); len(a[0])", "a = make([]*int64, 1); a[0][0]",
+			"a = make([]*int64, 1); a[0][0] = 1", "a = make([]*int64, 1); a[0]()", "a = make([]*int64, 1); f = func(x...) { return x }; f(a[0]...)", "a = make([]*int64, 1); 1 in a[0]", "a = make([]*int64, 1); make([]int64, a[0])"}
+		oi := zz.Choose(len(ops))
+		src = ops[oi]
+		id = "nil-operands/" + ops[oi]
 	case 0:
 		mi := zz.Choose(len(muts))
 		src = "m = " + lit + "; x = 0; for " + vars + " in m { " + muts[mi] + "; " + use + " }; x"
@@ -552,6 +573,9 @@ func ZZ_C01_interference() {
 		mi := zz.Choose(len(pm))
 		src = "s = [1, 2, 3]; " + pm[mi] + "; s"
 		id = "condition-operand-rebound/" + pm[mi]
+	}
+	if src == "" {
+		return
 	}
 	e := env.NewEnv()
 	e.Define("range", func(n int64) []int64 { return make([]int64, n) })
